@@ -42,8 +42,9 @@ JCall == IsEvent("call") /\ Call(Ev.id, Ev.op, Ev.mount, Ev.req)
 JRet  == IsEvent("ret")  /\ Ret(Ev.id, Ev.status)
 JTick == IsEvent("tick") /\ Tick(Ev.d)
 JScan == IsEvent("scan") /\ Scan(ScanOf(Ev.vols))
+JIndex == IsEvent("index") /\ IndexOk(Ev.entries) /\ UNCHANGED cvars
 
-JNext == JCall \/ JRet \/ JTick \/ JScan
+JNext == JCall \/ JRet \/ JTick \/ JScan \/ JIndex
 
 JSpec == JInit /\ [][JNext]_<<cvars, l, tr>>
 
